@@ -3,13 +3,14 @@
    stream is collected, for the callback  cb args := app f args.
    Stateless stages and scans: number, combine, combine3, iir, iirCombine, cross. *)
 From P2 Require Import Base.Prelude Sem.Num Sem.Syntax Sem.Ops Sem.Lib Lib.Names Lib.Builtins.
+Require Import Lia.
 Local Open Scope Z_scope.
 
 Section Agree.
 Variable app : value -> list value -> res value.
 Variable f : value.
 
-Lemma collect_sbind (r : res value) (k : value -> strm) :
+Lemma collect_sbind {A} (r : res A) (k : A -> strm) :
   collect (sbind r k) = bind r (fun y => collect (k y)).
 Proof. destruct r; reflexivity. Qed.
 
@@ -99,7 +100,167 @@ Proof.
   rewrite cross_row_agree, mapargs_app_app, IH. reflexivity.
 Qed.
 
+(* ---------- stages whose callback must answer a bool: compact, merge ----------
+   C07's as_bool turns every non-bool answer into an error; Sem/Lib.v keeps the opaque text of a caught
+   error (VErrText) outside the modelled fragment (Unsup).  The two agree whenever the callback does
+   not answer such a text. *)
+Hypothesis Hne : forall args t, app f args <> Ok (VErrText t).
+
+Lemma collect_of_list l : collect (of_list l) = Ok l.
+Proof. induction l as [|x l IH]; cbn [of_list collect]; [reflexivity|]. rewrite IH. reflexivity. Qed.
+
+Lemma compact_from_agree : forall l last,
+  collect (s_compact_from (fun a b => app f [a; b]) last (of_list l)) = compact_app app f last l.
+Proof.
+  induction l as [|x l IH]; intros last; cbn [of_list s_compact_from compact_app]; [reflexivity|].
+  rewrite collect_sbind. unfold as_bool.
+  destruct (app f [last; x]) as [v| | | |] eqn:E; cbn [bind]; try reflexivity.
+  destruct v; cbn [bind collect]; try reflexivity.
+  - destruct b; [apply IH|]. cbn [collect]. rewrite IH. reflexivity.
+  - exfalso. exact (Hne _ _ E).
+Qed.
+
+Lemma compact_agree l :
+  collect (s_compact (fun a b => app f [a; b]) (of_list l)) =
+  match l with [] => Ok [] | x :: r => bind (compact_app app f x r) (fun ys => Ok (x :: ys)) end.
+Proof.
+  destruct l as [|x r]; [reflexivity|]. cbn [of_list s_compact collect]. rewrite compact_from_agree. reflexivity.
+Qed.
+
+Lemma merge_agree : forall l1 l2,
+  collect (s_merge (fun a b => app f [a; b]) (of_list l1) l2) = merge_app app f l1 l2.
+Proof.
+  induction l1 as [|a l1 IH1]; intros l2.
+  - destruct l2 as [|b l2]; cbn [of_list s_merge merge_app]; [reflexivity|exact (collect_of_list (b :: l2))].
+  - induction l2 as [|b l2 IH2]; cbn [of_list s_merge merge_app].
+    + cbn [collect]. rewrite collect_of_list. reflexivity.
+    + rewrite collect_sbind. unfold as_bool.
+      destruct (app f [a; b]) as [v| | | |] eqn:E; cbn [bind]; try reflexivity.
+      destruct v; cbn [bind collect]; try reflexivity.
+      * destruct b0; cbn [collect].
+        -- rewrite IH1. reflexivity.
+        -- f_equal. exact IH2.
+      * exfalso. exact (Hne _ _ E).
+Qed.
+
+(* ---------- minMax: no bool, no text: the same loop ---------- *)
+
+Lemma minmax_map_same mn mx mni mxi b : Builtins.minmax_map mn mx mni mxi b = Lib.minmax_map mn mx mni mxi b.
+Proof. reflexivity. Qed.
+
+Lemma minMax_from_agree : forall l mn mx mni mxi,
+  t_minMax_from (fun x => app f [x]) mn mx mni mxi (of_list l) = minmax_app app f mn mx mni mxi l.
+Proof.
+  induction l as [|x l IH]; intros mn mx mni mxi; cbn [of_list t_minMax_from minmax_app]; [reflexivity|].
+  destruct (app f [x]) as [k| | | |]; cbn [bind]; try reflexivity.
+  destruct (vless k mn) as [le| | | |]; cbn [bind]; try reflexivity.
+  destruct (vless mx k) as [gr| | | |]; cbn [bind]; try reflexivity.
+  apply IH.
+Qed.
+
+Lemma minMax_agree l :
+  t_minMax (fun x => app f [x]) (of_list l) =
+  match l with
+  | [] => Ok (Lib.minmax_map (VInt 0) (VInt 0) (VInt 0) (VInt 0) false)
+  | x :: r => bind (app f [x]) (fun k => minmax_app app f k k x x r)
+  end.
+Proof.
+  destruct l as [|x r]; [reflexivity|]. cbn [of_list t_minMax].
+  destruct (app f [x]); cbn [bind]; try reflexivity. apply minMax_from_agree.
+Qed.
+
+(* ---------- combineN: the ring buffer of the last n items against the windows of the list ---------- *)
+
+Lemma windows_short n : forall l, (length l < n)%nat -> windows n l = [].
+Proof.
+  intros l H. destruct l as [|x l]; [reflexivity|]. cbn [windows].
+  destruct (Nat.leb n (length (x :: l))) eqn:E; [|reflexivity]. apply Nat.leb_le in E. lia.
+Qed.
+
+Lemma windows_full n w r :
+  length w = n -> (1 <= n)%nat -> windows n (w ++ r) = [VList w] :: windows n (tl w ++ r).
+Proof.
+  intros L N. destruct w as [|a w]; [cbn in L; lia|].
+  cbn [List.app windows tl].
+  assert (E : Nat.leb n (length (a :: w ++ r)) = true).
+  { apply Nat.leb_le. cbn [length] in *. rewrite app_length. lia. }
+  rewrite E. f_equal. f_equal. f_equal.
+  change (a :: w ++ r) with ((a :: w) ++ r). rewrite firstn_app, L, Nat.sub_diag. cbn [firstn].
+  rewrite app_nil_r. rewrite <- L. apply firstn_all.
+Qed.
+
+Lemma combineN_from_agree n (N : (1 <= n)%nat) : forall l win,
+  (length win <= n)%nat ->
+  collect (s_combineN_from n (fun w => app f [w]) win (of_list l)) =
+  mapargs_app app f (windows n (if Nat.ltb (length win) n then win ++ l else tl win ++ l)).
+Proof.
+  induction l as [|x l IH]; intros win Lw; cbn [of_list s_combineN_from].
+  - cbn [collect]. rewrite !app_nil_r.
+    destruct (Nat.ltb (length win) n) eqn:E.
+    + apply Nat.ltb_lt in E. rewrite windows_short by lia. reflexivity.
+    + apply Nat.ltb_ge in E. rewrite windows_short; [reflexivity|].
+      destruct win; cbn [tl length] in *; lia.
+  - set (win' := if Nat.ltb (length win) n then win ++ [x] else tl win ++ [x]).
+    assert (Lw' : (length win' <= n)%nat).
+    { unfold win'. destruct (Nat.ltb (length win) n) eqn:E.
+      - apply Nat.ltb_lt in E. rewrite app_length. cbn [length]. lia.
+      - rewrite app_length. cbn [length]. destruct win; cbn [tl length] in *; lia. }
+    assert (Eq : (if Nat.ltb (length win) n then win ++ x :: l else tl win ++ x :: l) = win' ++ l).
+    { unfold win'. destruct (Nat.ltb (length win) n); rewrite <- app_assoc; reflexivity. }
+    rewrite Eq.
+    destruct (Nat.eqb (length win') n) eqn:En.
+    + apply Nat.eqb_eq in En.
+      rewrite (windows_full n win' l En N). cbn [mapargs_app].
+      rewrite collect_sbind. destruct (app f [VList win']); cbn [bind]; try reflexivity.
+      cbn [collect]. rewrite (IH win' Lw').
+      assert (Ef : Nat.ltb (length win') n = false) by (apply Nat.ltb_ge; lia).
+      rewrite Ef. reflexivity.
+    + apply Nat.eqb_neq in En. rewrite (IH win' Lw').
+      assert (Ef : Nat.ltb (length win') n = true) by (apply Nat.ltb_lt; lia).
+      rewrite Ef. reflexivity.
+Qed.
+
+Lemma combineN_agree n l : (1 <= n)%nat ->
+  collect (s_combineN n (fun w => app f [w]) (of_list l)) = mapargs_app app f (windows n l).
+Proof.
+  intros N. unfold s_combineN. rewrite (combineN_from_agree n N l []) by (cbn; lia).
+  cbn [length]. assert (E : Nat.ltb 0 n = true) by (apply Nat.ltb_lt; lia). rewrite E. reflexivity.
+Qed.
+
 End Agree.
 
-Print Assumptions cross_agree.
-Print Assumptions iir_agree.
+(* all ten stages at once *)
+Theorem lib_agrees_lemma : forall (app : value -> list value -> res value) (f : value),
+  (forall l i, collect (s_number (fun a b => app f [a; b]) i (of_list l)) = mapargs_app app f (number_args i l)) /\
+  (forall l, collect (s_combine (fun a b => app f [a; b]) (of_list l)) =
+             mapargs_app app f (match l with [] => [] | x :: r => pair_args x r end)) /\
+  (forall l, collect (s_combine3 (fun a b c => app f [a; b; c]) (of_list l)) =
+             mapargs_app app f (match l with x :: y :: r => triple_args x y r | _ => [] end)) /\
+  (forall n l, (1 <= n)%nat ->
+             collect (s_combineN n (fun w => app f [w]) (of_list l)) = mapargs_app app f (windows n l)) /\
+  (forall three ini l, collect (s_iirmap (fun x => app ini [x]) (step_of app f three) (of_list l)) =
+                       iir_app app three ini f l) /\
+  (forall l1 l2, collect (s_cross (fun a b => app f [a; b]) (of_list l1) l2) = mapargs_app app f (cross_args l1 l2)) /\
+  (forall l, t_minMax (fun x => app f [x]) (of_list l) =
+             match l with
+             | [] => Ok (Lib.minmax_map (VInt 0) (VInt 0) (VInt 0) (VInt 0) false)
+             | x :: r => bind (app f [x]) (fun k => minmax_app app f k k x x r)
+             end) /\
+  ((forall args t, app f args <> Ok (VErrText t)) ->
+   (forall l, collect (s_compact (fun a b => app f [a; b]) (of_list l)) =
+              match l with [] => Ok [] | x :: r => bind (compact_app app f x r) (fun ys => Ok (x :: ys)) end) /\
+   (forall l1 l2, collect (s_merge (fun a b => app f [a; b]) (of_list l1) l2) = merge_app app f l1 l2)).
+Proof.
+  intros app f. repeat split; intros.
+  - apply number_agree.
+  - apply combine_agree.
+  - apply combine3_agree.
+  - apply combineN_agree; assumption.
+  - apply iir_agree.
+  - apply cross_agree.
+  - apply minMax_agree.
+  - apply compact_agree; assumption.
+  - apply merge_agree; assumption.
+Qed.
+
+Print Assumptions lib_agrees_lemma.
